@@ -699,6 +699,10 @@ def getitem(eng, v, k):
         n = z3.Length(e)
         idx = norm_index(eng, k, n)
         return SV(TStr, z3.SubString(e, idx, 1))
+    if isinstance(v, SV) and isinstance(ty, TKey):
+        m = eng.methods.get((ty.name, '__getitem__'))      # subscript of an abstract value: given by the contract
+        if m is not None:
+            return m(eng, v, k)
     raise EngineError('subscript of %r' % (v,))
 
 
